@@ -66,9 +66,52 @@ def check(d, pids):
     return res
 
 
+PLAN = {   # which properties' quick checks are run against which seeded change
+    "C01-a": ["C01"], "C02-a": ["C02"], "C03-a": ["C03"], "C04-a": ["C04", "C07"], "C05-a": ["C05", "C07"], "C06-a": ["C06"],
+    "C07-a": ["C07"], "C08-a": ["C08"], "C09-a": ["C09"], "C10-a": ["C10"], "C11-a": ["C11"], "C12-a": ["C12"], "C13-a": ["C13"],
+    "C14-a": ["C14"], "C15-a": ["C15"], "C16-a": ["C16", "C03"], "C17-a": ["C17"], "C18-a": ["C18"], "C19-a": ["C19"],
+    "C20-a": ["C20", "C08"],
+}
+
+
+def run_all(only=None):
+    """check every seeded change against the planned properties; writes seeded/RESULTS.json and seeded/<id>/verification.json"""
+    out = {}
+    rf = os.path.join(V, "seeded", "RESULTS.json")
+    if os.path.exists(rf):
+        out = json.load(open(rf))
+    for sid in sorted(PLAN):
+        if only and sid not in only:
+            continue
+        d = os.path.join(V, "seeded", sid)
+        if not os.path.isdir(d):
+            continue
+        r = check(d, PLAN[sid])
+        entry = {}
+        for pid, x in r.items():
+            v = [l for l in x["lines"] if l.startswith("VIOLATION")]
+            entry[pid] = "missed" if not v else ("caught: broken proof/correspondence, no failing input found" if v[0].endswith("no-failing-input-found")
+                                                 else "caught with a concrete replay")
+        out[sid] = entry
+        json.dump(out, open(rf, "w"), indent=1, sort_keys=True)
+        vf = os.path.join(d, "verification.json")
+        ver = json.load(open(vf)) if os.path.exists(vf) else {}
+        ver["checks_run"] = ["git -C /repo apply seeded/%s/patch.diff; bin/check --property %s --tier quick; git -C /repo checkout -- ." % (sid, p) for p in PLAN[sid]]
+        ver["outcome"] = entry
+        json.dump(ver, open(vf, "w"), indent=1, sort_keys=True)
+    return out
+
+
 if __name__ == "__main__":
     if sys.argv[1] == "confirm":
-        confirm(sys.argv[2])
+        r = confirm(sys.argv[2])
+        vf = os.path.join(os.path.abspath(sys.argv[2]), "verification.json")
+        ver = json.load(open(vf)) if os.path.exists(vf) else {}
+        ver["confirmed_in_scratch_worktree"] = {k: v for k, v in r.items() if "tail" not in k}
+        ver["confirm_commands"] = ["go test -vet=off -count=1 -run TestSeeded . (demo without / with the change)", "go build ./...", SUITE]
+        json.dump(ver, open(vf, "w"), indent=1, sort_keys=True)
+    elif sys.argv[1] == "all":
+        print(json.dumps(run_all(sys.argv[2:] or None), indent=1))
     else:
         r = check(sys.argv[2], sys.argv[3:])
         print(json.dumps(r, indent=1))
